@@ -159,3 +159,96 @@ Proof.
   - destruct (rmax_wstr c <? dmax); [exact I|auto].
   - destruct (destbos <? dmax * wchar_w c) eqn:E4; [|auto]. lia.
 Qed.
+
+(* ---------------- handler sequences (C05) ---------------- *)
+Lemma hspec_no_handler {A} (post : list (hkind * Z) -> A -> Prop) acc (p : prog A) :
+  no_handler p -> (forall a, post acc a) -> hspec post acc p.
+Proof. intros Hn Hp. induction p; cbn in *; auto; contradiction. Qed.
+
+Lemma zero_loop_noh w n : forall d, no_handler (zero_loop w n d).
+Proof. induction n; intros d; cbn; auto. Qed.
+Lemma zero_slack_noh c w d n : no_handler (zero_slack c w d n).
+Proof. unfold zero_slack. destruct (null_slack c); [destruct (32 <? Z.of_nat n)|]; cbn; auto. apply zero_loop_noh. Qed.
+Lemma nlen_loop_noh g w n : forall p cnt bos, no_handler (nlen_loop g w n p cnt bos).
+Proof. induction n as [|n IH]; intros p cnt bos; cbn [nlen_loop]; [destruct g; cbn; auto|]. cbn. intros v. bsplit; cbn; auto. Qed.
+
+Lemma handle_error_hspec {A} (post : list (hkind * Z) -> A -> Prop) acc c w d dmax code (k : prog A) :
+  hspec post (acc ++ [(HStr, code)]) k -> hspec post acc (handle_error c w d dmax code ;;; k).
+Proof. intros H. unfold handle_error. destruct (null_slack c); cbn; exact H. Qed.
+Lemma handle_mem_error_hspec {A} (post : list (hkind * Z) -> A -> Prop) acc d dmax code (k : prog A) :
+  hspec post (acc ++ [(HMem, code)]) k -> hspec post acc (handle_mem_error d dmax code ;;; k).
+Proof. intros H. cbn. exact H. Qed.
+
+(* strnlen_s on acceptable arguments reports nothing *)
+Lemma strnlen_s_prog_hspec_ok {A} (post : list (hkind * Z) -> A -> Prop) acc c str smax bos (k : Z -> prog A) :
+  str <> 0 -> 1 <= smax <= rmax_str c -> (forall r, hspec post acc (k r)) ->
+  hspec post acc (r <- strnlen_s_prog c str smax bos ;; k r).
+Proof.
+  intros Hs Hm Hk. apply hspec_bind. unfold strnlen_s_prog.
+  replace (str =? 0) with false by (symmetry; apply Z.eqb_neq; lia).
+  replace (smax =? 0) with false by (symmetry; apply Z.eqb_neq; lia).
+  replace (rmax_str c <? smax) with false by (symmetry; apply Z.ltb_ge; lia).
+  apply hspec_no_handler; [apply nlen_loop_noh|auto].
+Qed.
+
+(* exactly one report with the returned code, or none and success *)
+Definition report_post (k : hkind) (hs : list (hkind * Z)) (r : Z) : Prop :=
+  (r = 0 /\ hs = []) \/ (r <> 0 /\ hs = [(k, r)]).
+Lemma report_ok k : report_post k [] EOK.
+Proof. left. split; reflexivity. Qed.
+Lemma report_one k code : code <> 0 -> report_post k ([] ++ [(k, code)]) code.
+Proof. intros H. right. split; [exact H|reflexivity]. Qed.
+
+Section CopyLoopH.
+  Variables (c : cfg) (w : Z) (fwd : bool) (od odmax bumper : Z) (use_slen : bool).
+  Variable post : list (hkind * Z) -> Z -> Prop.
+  Variable acc : list (hkind * Z).
+  Hypothesis Hok : post acc EOK.
+  Hypothesis Hov : post (acc ++ [(HStr, ESOVRLP)]) ESOVRLP.
+  Hypothesis Hns : post (acc ++ [(HStr, ESNOSPC)]) ESNOSPC.
+  Hypothesis Hut : post (acc ++ [(HStr, ESUNTERM)]) ESUNTERM.
+
+  Lemma copy_loop_hspec n : forall d s sl, hspec post acc (copy_loop c w fwd od odmax bumper use_slen n d s sl).
+  Proof.
+    induction n as [|n IH]; intros d s sl; cbn [copy_loop].
+    - apply handle_error_hspec. exact Hns.
+    - destruct (if fwd then d =? bumper else s =? bumper). { apply handle_error_hspec. exact Hov. }
+      destruct (use_slen && (sl =? 0)).
+      { apply hspec_bind. apply hspec_no_handler; [|intros; exact Hok].
+        destruct (null_slack c); [apply zero_slack_noh|cbn; auto]. }
+      cbn [hspec]. intros ch. destruct (ch =? 0).
+      + apply hspec_bind. apply hspec_no_handler; [apply zero_slack_noh|intros; exact Hok].
+      + apply IH.
+  Qed.
+
+  Lemma find_end_hspec (k : nat -> Z -> prog Z) n : forall d,
+    (forall n' d', hspec post acc (k n' d')) -> hspec post acc (find_end c w fwd od odmax bumper n d k).
+  Proof.
+    induction n as [|n IH]; intros d Hk.
+    - cbn. intros ch. destruct (ch =? 0); [apply Hk|].
+      destruct (fwd && (d =? bumper)); apply handle_error_hspec; [exact Hov|exact Hut].
+    - cbn [find_end hspec]. intros ch. destruct (ch =? 0); [apply Hk|].
+      destruct (fwd && (d =? bumper)). { apply handle_error_hspec. exact Hov. }
+      destruct n as [|n']; [apply handle_error_hspec; exact Hut|apply IH; auto].
+  Qed.
+End CopyLoopH.
+
+(* ---------------- reads of the bounded length scan ---------------- *)
+Lemma nlen_loop_reads w n : 0 < w -> forall p cnt bos, reads_in (ext p (Z.of_nat n * w)) (nlen_loop true w n p cnt bos).
+Proof.
+  intros Hw. induction n as [|n IH]; intros p cnt bos; cbn [nlen_loop]; [exact I|].
+  rewrite Nat2Z.inj_succ, Z.mul_succ_l. cbn [reads_in]. split; [apply range_ext; lia|].
+  intros v. bsplit; cbn [reads_in]; auto; (eapply reads_in_weaken; [|apply IH]); apply ext_sub; lia.
+Qed.
+(* the unguarded order reads one element more: the refutation witness for the former strnlen_s *)
+Lemma nlen_loop_unguarded_reads_past : ~ reads_in (ext 100 2) (nlen_loop false 1 2 100 0 BOS_UNKNOWN).
+Proof.
+  cbn. intros [_ H]. specialize (H 1). cbn in H. destruct H as [_ H]. specialize (H 1). cbn in H.
+  destruct H as [H _]. specialize (H 102). unfold ext in H. lia.
+Qed.
+Lemma strnlen_s_prog_reads c str smax bos : strnlen_guarded = true -> 0 <= smax ->
+  reads_in (ext str smax) (strnlen_s_prog c str smax bos).
+Proof.
+  intros Hg H0. unfold strnlen_s_prog. rewrite Hg. bsplit; cbn [reads_in]; auto.
+  eapply reads_in_weaken; [|apply nlen_loop_reads; lia]. apply ext_sub; lia.
+Qed.
